@@ -36,4 +36,16 @@ PROPS = {
         "assumptions": ["strings with invalid UTF-8 are outside 'JSON-representable values' for the round trip"],
         "explanation": "theorems about truncate and the HTML escaper on the Coq model + differential runs of truncate/htmlEscape/jsEscape/toJSON against the real helpers, with property oracles in Go (rune bound, prefix, no raw specials, json.Valid + decode round trip)",
     },
+    "C14": {
+        "level": "proof",
+        "race": True,
+        "cone": ["gen/Tables.v", "model/Conc.v", "proofs/ConcProofs.v", "props/C14.v"],
+        "trusted_base": COMMON_TB + [
+            "the access table (which shared field is read/written under which mutex) is extracted syntactically by the translator from context.go, plush.go, helpers/map.go, template.go; a lock taken through a helper the translator does not see is not recognised (fails closed: the access is listed as unlocked)",
+            "locations and locks are identified per field, assuming a mutex and the map it guards belong to the same object",
+            "NOT shown by the theorem: races inside the Go runtime / standard library / user helpers, and whether the lexical lockset is what executes - exhibited only by the -race harness runs",
+        ],
+        "assumptions": ["Go's sync.Mutex provides mutual exclusion; Has and New touch shared state only through Value and Set"],
+        "explanation": "PARTIAL by design: lockset soundness theorem (any number of threads, any schedule) + vm_compute check of the table regenerated from /repo; the runtime half is the race-detector harness (context reader/writer mixes, shared template with separate contexts incl. children of one parent, cache on/off), every concurrent result compared with the sequential one",
+    },
 }
